@@ -166,7 +166,7 @@ PROPS = {
         assumptions=["signature_verifies assumes verify (publicKey seed) m (sign seed m) for the crypto record"],
     ),
     "C10": dict(
-        theorems=["HC.C10.fault_is_crash", "HC.C10.fault_prefix_step", "HC.C10.fault_before_any", "HC.C10.no_fault_complete", "HC.C10.fault_recovers", "HC.C10.replica_fault_recovers",
+        theorems=["HC.C10.fault_is_crash", "HC.C10.fault_prefix_step", "HC.C10.fault_before_any", "HC.C10.no_fault_complete", "HC.C10.fault_recovers", "HC.C10.replica_fault_recovers", "HC.C10.replica_blockgrow_fault_recovers",
                   "HC.C02.reopen_exact", "HC.C02.flush_atomic"],
         bridge_modules=["HC.Bridge.Oplog", "HC.Bridge.Order"], bridging=OPLOG_BRIDGE + ORDER_BRIDGE,
         runs=_c10_runs,
@@ -248,7 +248,7 @@ PROPS = {
         trusted=LOG_TRUSTED, assumptions=["each storage operation is atomic and persisted in issue order"],
     ),
     "C07": dict(
-        theorems=["HC.C07.torn_atomic", "HC.C07.torn_atomic_from", "HC.C07.torn_then_continue", "HC.C07.torn_entry_ignored", "HC.C07.readEntries_stops", "HC.C07.torn_header_falls_back", "HC.C07.replica_torn_commit_point_partial", "HC.C07.replica_torn_header"],
+        theorems=["HC.C07.torn_atomic", "HC.C07.torn_atomic_from", "HC.C07.torn_then_continue", "HC.C07.torn_entry_ignored", "HC.C07.readEntries_stops", "HC.C07.torn_header_falls_back", "HC.C07.replica_torn_commit_point_partial", "HC.C07.replica_torn_header", "HC.C07.replica_blockgrow_torn_commit_point"],
         bridge_modules=["HC.Bridge.Oplog", "HC.Bridge.Order"], bridging=OPLOG_BRIDGE + ORDER_BRIDGE,
         runs=_c07_runs,
         partial="proved on the model (torn_atomic): after any history of calls and reopen steps of a writer core, for any further append_batch/clear/make_read_only/read, any storage operation k of it and any number t of bytes of that write that arrive, Hypercore::new succeeds and the recovered core represents the log before or after the call and stays usable; torn data, bitfield-page, tree-node and log-entry writes need no assumption, a torn header write assumes that the checksum rejects the half-written slot (CrcDetects, evaluated by the harness on every torn state it generates). On a replica (replica_torn_commit_point_partial): a torn write of the block's bytes or of the oplog entry of any honest proof application recovers to exactly the state before the application (the entry write is the commit point; no checksum assumption); a torn header write of the replica's periodic flush (all pages and nodes written; CrcDetects assumed) recovers to the state after the application (replica_torn_header). Not proved (run only): torn page and node writes inside the periodic flush of a replica (the stores then stop being whole pages / whole slots until rewritten); a second crash after recovery from a torn bitfield page (the store's size is then not a multiple of the page size until the page is rewritten).",
@@ -257,10 +257,10 @@ PROPS = {
     ),
     "C08": dict(
         theorems=["HC.C08.has_after_update", "HC.C08.contig_step", "HC.C08.clear_rule_eq", "HC.C08.contig_reachable", "HC.C08.full",
-                  "HC.C08.rep_exact", "HC.C08.writer_exact", "HC.C08.recovered_exact", "HC.C08.replica_exact", "HC.C08.replica_reopen_exact"],
+                  "HC.C08.rep_exact", "HC.C08.writer_exact", "HC.C08.recovered_exact", "HC.C08.replica_exact", "HC.C08.replica_reopen_exact", "HC.C08.replica_crash_exact"],
         bridge_modules=["HC.Bridge.Stores"], bridging=STORES_BRIDGE,
         runs=_c08_runs,
-        partial="proved: the incremental rule for every sequence of range updates (contig_reachable); and on the model of the whole crate, for a writer core after any history of calls and reopen steps and after recovery from a crash at any storage operation (bitfield pages ahead of the header hint), has() = the held set and contiguous_length = the first missing index (writer_exact, recovered_exact), page (de)serialisation included. On a replica (replica_exact): after first contact and the honest block answers for any list of indices in any order, applied by verify_and_apply_proof, has(i) is true exactly for the fetched indices and contiguous_length is the smallest index not fetched; the same from creation across growth rounds, hash requests and any number of close/reopen steps (replica_reopen_exact: the bitfield pages and the header hint written by the periodic flush plus the replayed entries give back exactly the live bitfield and hint). Not proved: replicas recovering from a crash in mid-application; that the Rust page/word/mask arithmetic realises setRange is validated by the correspondence run (cores up to 70k blocks, has() scanned on every index)",
+        partial="proved: the incremental rule for every sequence of range updates (contig_reachable); and on the model of the whole crate, for a writer core after any history of calls and reopen steps and after recovery from a crash at any storage operation (bitfield pages ahead of the header hint), has() = the held set and contiguous_length = the first missing index (writer_exact, recovered_exact), page (de)serialisation included. On a replica (replica_exact): after first contact and the honest block answers for any list of indices in any order, applied by verify_and_apply_proof, has(i) is true exactly for the fetched indices and contiguous_length is the smallest index not fetched; the same from creation across growth rounds, hash requests and any number of close/reopen steps (replica_reopen_exact: the bitfield pages and the header hint written by the periodic flush plus the replayed entries give back exactly the live bitfield and hint). Across crashes (replica_crash_exact): in every state reached from a created replica by first contact, honest exchanges, reopens and crashes at any storage operation of an application followed by a reopen, without bound, has is the held set and the hint is the first index not held - also when the bitfield store is ahead of the replayed hint. That the Rust page/word/mask arithmetic realises setRange is validated by the correspondence run (cores up to 70k blocks, has() scanned on every index)",
         rule="cores filled past 8192, 32768 and 65536 blocks, clears straddling word/page edges, reopen and crash recovery in between; a replica that fills a whole 32768-bit page out of order and closes the gap at the hint last; has() on every index below length+2 and on boundary indices of the next pages; contiguous_length compared with the first missing index",
         trusted=LOG_TRUSTED, assumptions=["range updates have positive length"],
     ),
